@@ -206,6 +206,14 @@ def inline_temporaries(fnode, expr, depth=4, keep=(), inline_calls=False):
                         counts[x.id] = counts.get(x.id, 0) + 1
                         if len(n.targets) == 1 and isinstance(t, ast.Name):
                             defs[x.id] = n.value
+                if len(n.targets) == 1 and isinstance(t, ast.Tuple) and all(isinstance(e, (ast.Name, ast.Attribute)) for e in t.elts):
+                    # a, b = E  ->  a is E[0], b is E[1];   a, b = (u, v)  ->  a is u, b is v
+                    for k, e in enumerate(t.elts):
+                        if isinstance(e, ast.Name):
+                            if isinstance(n.value, ast.Tuple) and len(n.value.elts) == len(t.elts):
+                                defs[e.id] = n.value.elts[k]
+                            elif not isinstance(n.value, (ast.Call, ast.Tuple)):
+                                defs[e.id] = ast.Subscript(value=n.value, slice=ast.Constant(value=k), ctx=ast.Load())
         elif isinstance(n, (ast.AugAssign, ast.AnnAssign)):
             for x in ast.walk(n.target):
                 if isinstance(x, ast.Name):
@@ -432,14 +440,21 @@ def _canonical_comprehension_vars(node):
 
     def rename(comp, base):
         mapping = {}
+        pos = 0
         for g in comp.generators:
             for x in ast.walk(g.target):
-                if isinstance(x, ast.Name) and x.id not in mapping:
-                    mapping[x.id] = "_c%d" % (base + len(mapping))
+                if isinstance(x, ast.Name):
+                    # numbered by position in the target; a name bound twice (`_`) means its last binding
+                    mapping[x.id] = "_c%d" % (base + pos)
+                    x._canon = "_c%d" % (base + pos)
+                    pos += 1
 
         class R(ast.NodeTransformer):
             def visit_Name(self, n):
-                if n.id in mapping:
+                if getattr(n, "_canon", None):
+                    n.id = n._canon
+                    n._canon = None
+                elif n.id in mapping:
                     n.id = mapping[n.id]
                 return n
 
@@ -454,7 +469,7 @@ def _canonical_comprehension_vars(node):
             if i > 0:
                 g.iter = R().visit(g.iter)
         comp.generators[0].iter = first_iter
-        return len(mapping)
+        return pos
 
     def visit(n, base=0):
         # numbering restarts at every outermost comprehension and continues into nested ones, so
